@@ -17,6 +17,7 @@ import (
 	"go/token"
 	"os"
 	"path/filepath"
+	"sort"
 	"strconv"
 	"strings"
 )
@@ -114,12 +115,19 @@ func main() {
 		}
 		fd.Body.List = instrument(fd.Body.List)
 	}
-	for _, need := range []string{"open", "flock"} {
-		if !found[need] {
-			fmt.Fprintf(os.Stderr, "instrumentation point not found: SetLock system calls found: %v\n", found)
-			os.Exit(1)
-		}
+	// SetLock must at least open the lock file and make one further system
+	// call (the lock itself: flock, or fcntl record locks)
+	if !found["open"] || len(found) < 2 {
+		fmt.Fprintf(os.Stderr, "instrumentation point not found: SetLock system calls found: %v\n", found)
+		os.Exit(1)
 	}
+	// the list of points is part of the build output (the explorer reads it)
+	var l []string
+	for n := range found {
+		l = append(l, n)
+	}
+	sort.Strings(l)
+	os.WriteFile(os.Args[2]+".points", []byte(strings.Join(l, "\n")+"\n"), 0644)
 	// add the import
 	imp := &ast.ImportSpec{Path: &ast.BasicLit{Kind: token.STRING, Value: strconv.Quote("github.com/hknutzen/Netspoc-Approve/go/pkg/verifsched")}}
 	for _, d := range f.Decls {
